@@ -686,6 +686,21 @@ class SMCSamples(BaseSamples):
             out += f"Log evidence: {self.log_evidence:.2f}\n"
         return out
 
+    @classmethod
+    def concatenate(cls, samples: list[SMCSamples]) -> SMCSamples:
+        """Concatenate SMC samples, keeping beta and the evidence if shared."""
+        out = super().concatenate(samples)
+        first = samples[0]
+        if all(s.beta == first.beta for s in samples):
+            out.beta = first.beta
+        if all(s.log_evidence == first.log_evidence for s in samples):
+            out.log_evidence = first.log_evidence
+        if all(
+            s.log_evidence_error == first.log_evidence_error for s in samples
+        ):
+            out.log_evidence_error = first.log_evidence_error
+        return out
+
     def to_standard_samples(self):
         """Convert the samples to standard samples."""
         return Samples(
